@@ -1318,7 +1318,7 @@ func randomKey(n int) string {
 
 func (s *Server) reset() {
 	s.aofsz = 0
-	s.cols.Clear()
+	s.flushDB()
 }
 
 func (s *Server) command(msg *Message, client *Client) (
